@@ -1,7 +1,9 @@
 """C03 write permission: theorems in coq/Props/PropC03.v; correspondence and monitor through the C03
 driver (harness/overlay/server/zz_verif_c03x_test.go = the topic-history driver plus topic deletion in
 two halves, user suspension, me/fnd/sys with subscribers, real peer-to-peer topics) and the extracted model
-coq/Sys/TopicLife.v over Sys/Topic.v."""
+coq/Sys/TopicLife.v over Sys/Topic.v, wrapped once more by coq/Sys/TopicOffSetC03.v (s03c): the complete
+not-attached {set} (desc.private + sub.mode in one request, ops osetx / p2posetx), root sessions acting on behalf of
+another user (sess n u r, kind@obo) and the eviction of the sessions attached on behalf of a banned user."""
 import os
 import re
 import subprocess
@@ -1084,11 +1086,12 @@ def run(ctx):
               ("offset", 0.0, 0.068), ("obo", 0.0, 0.054)],
         lambda sc, views: monitor(sc, views, known_hit),
         dict(ops=OpSetC03(PUB_KINDS), frame=frame_f, line=line_f, keys=("frames", "store", "cache")),
-        rule="seeded random histories over one group topic plus me/fnd/sys: authors = owner, members, muted, write-less (want or given without W), banned, removed, never subscribed; publishes preceded by subscribe/set-sub/del-sub/leave histories (arbitrary mode strings) with Fail k / Crash k at every adapter-call position of the permission requests, unload/restart; the owner's {del topic} held open inside store.Topics.Delete (memverif call hook) with publishes dispatched meanwhile; suspension/resumption (with Fail/Crash on its store calls) of accounts that are at once a plain member of the group topic, a party of one or two real peer-to-peer topics (assorted modes, with and without W) and a subscriber of sys, or the owner, or a bystander, followed by publishes to the group topic, the p2p topics and sys; reloads after a suspension, both parties suspended and one resumed; publishes to me/fnd (attached or not) and sys (never attached; with and without subscribers); non-trivial = at least one accepted mutating request",
+        rule="seeded random histories over one group topic plus me/fnd/sys: authors = owner, members, muted, write-less (want or given without W), banned, removed, never subscribed; publishes preceded by subscribe/set-sub/del-sub/leave histories (arbitrary mode strings) with Fail k / Crash k at every adapter-call position of the permission requests, unload/restart; the owner's {del topic} held open inside store.Topics.Delete (memverif call hook) with publishes dispatched meanwhile; suspension/resumption (with Fail/Crash on its store calls) of accounts that are at once a plain member of the group topic, a party of one or two real peer-to-peer topics (assorted modes, with and without W) and a subscriber of sys, or the owner, or a bystander, followed by publishes to the group topic, the p2p topics and sys; reloads after a suspension, both parties suspended and one resumed; publishes to me/fnd (attached or not) and sys (never attached; with and without subscribers); profile offset: {set} from sessions that are NOT attached with every combination of desc.private {absent, number, map setting / deleting keys, map of nulls, empty map} x sub.mode {absent, valid without W, valid with W, junk, O-bit mismatch} x sub.user {absent, self, somebody else}, Fail/Crash on Subs.Get and Subs.Update, to the group topic and to a peer-to-peer topic, followed by restart / idle unload / nothing, attach and publish; profile obo: one or two ROOT sessions attached with extra.obo on behalf of members and strangers, publishing on behalf of the acted-for user and of others before and after he is banned (granted mode without J, mostly keeping W), removed by {del sub}, unsubscribes, drops J or W himself, with faults on the permission request, restarts, extra.obo from ordinary sessions and malformed; non-trivial = at least one accepted mutating request",
         trusted=["projection compared for C03: every frame of a publish request (group topic, me, fnd, sys), the stored rows and the cached modes/lastID after every request, the paused/read-only bits of the loaded group topic, of every p2p topic, of sys and of every loaded me/fnd topic, cached modes / attached sessions / seqid / lastID / messages of every p2p topic, the suspended accounts, me/fnd attachments, seqid/lastID/messages/subscribers of sys",
                  "read-only-follows-suspension takes the account states from the users table and the membership from the topic's cached perUser before the request; the read-only bit itself is read from Topic.status at quiescence",
                  "p2p topics are created with both subscription rows by store.Topics.CreateP2P at set-up (initTopicP2P case 4); the subscribers of sys are rows created at set-up followed by a reload of sys; both are removed / unloaded at the end of the scenario",
                  "the monitor takes the STORED subscription row as the definition of 'currently subscribed with W in both modes'; a failure of the iff is filed under a known finding only if the author's cached mode differs from the stored one AND one of the two named triggers hit that user since the topic was loaded (not-attached {set sub} of his own; faulted ownership-transfer request)",
                  "harness/overlay/server/zz_verif_c03x_test.go: the {del topic} of the owner is held inside adapter.TopicDelete by a memverif call hook (db/memverif/zz_hook.go) while publishes are dispatched and awaited; {acc status=susp} is sent by a root session; the driver's sessions are not in the session store, so suspension does not evict them (eviction on suspension and login refusal are C11's)",
+                 "s03c: harness/overlay/server/zz_verif_c03oz_test.go sends {set} with desc.private and sub in one JSON request, creates root sessions (authLvl put back after a restart at quiescence) and sends kind@obo requests through zz_verif_c04x_test.go's c04xOp (reused unchanged); the stored Private of every row and the stored rows of the p2p topics are read through memverif.DumpTopicDesc; the acting user of a request (tools/props/c03.py acting_user) is a python restatement of dispatch_as_c04; the law offline-set-ack-stores-want parses the mode with a python restatement of types.ParseAcs (letters JRWPASDO, N alone)",
                  "topic deletion is modelled for hub.topicUnreg case 1.1.1 only (owner, topic loaded, hard); other {del topic} requests are not issued"],
         counts={"quick": 640, "thorough": 5600}, extra_cov=extra_cov)
